@@ -47,12 +47,22 @@ func unrelatedDocs(r *rng, n int) []corpusDoc {
 func cmdC04(seed uint64, tier, outdir string) {
 	r := newRng(seed, "c04")
 	all := embeddedDocs()
-	n := 30
+	n := 20
 	if tier == "thorough" {
 		n = 500
 	}
-	docs := sampleDocs(r, all, 60, "License/WTFPL/license.txt", "License/WTFPL/v2.txt", "License/MIT/license.txt",
-		"License/GPL-2.0/license.txt", "License/LGPL-2.1/license.txt")
+	matchFamily = "determinism"
+	// include the documents whose names scoreDiffs treats specially (inducedPhrases keys)
+	var special []string
+	for _, d := range all {
+		for _, k := range []string{"AGPL", "Atmel", "Apache", "BSD", "bzip2", "GPL-2.0-with", "LGPL-2.0", "ImageMagick", "PHP", "SISSL", "SGI-B", "SunPro", "X11"} {
+			if strings.HasPrefix(d.name, k) && len(special) < 45 {
+				special = append(special, d.cat+"/"+d.name+"/"+d.variant)
+			}
+		}
+	}
+	docs := sampleDocs(r, all, 75, append(special, "License/WTFPL/license.txt", "License/WTFPL/v2.txt", "License/MIT/license.txt",
+		"License/GPL-2.0/license.txt", "License/LGPL-2.1/license.txt")...)
 	id := permOf(r, len(docs))
 	for i := range id {
 		id[i] = i
@@ -125,6 +135,39 @@ func cmdC04(seed uint64, tier, outdir string) {
 			vw.printf("OK %d\n", nt)
 		} else {
 			vw.printf("VIOL - %s: %s\n", in.name, verdict)
+		}
+	}
+	// scoreDiffs iterates over a Go map of license-name prefixes: documents whose name matches the
+	// keys, inputs with the key phrases removed or replaced; every call must give the same answer
+	for k := 0; k < n; k++ {
+		docs := synthCorpus(r, 3)
+		var target *corpusDoc
+		for i := range docs {
+			if docs[i].variant == "p.txt" {
+				target = &docs[i]
+			}
+		}
+		if target == nil {
+			continue
+		}
+		c := buildFrom(0.8, docs, permOf(r, len(docs)))
+		for v := 0; v < 10; v++ {
+			phraseStripNum = 1 + r.intn(4)
+			in := phraseStrip(r, target.text)
+			first := fmtResults(c.Match(in))
+			ow.printf("%s\n", first)
+			cw.printf("phrase-strip:%s %s\n", target.name, quoteBytes(in, 300))
+			verdict := ""
+			for rep := 0; rep < 25 && verdict == ""; rep++ {
+				if got := fmtResults(c.Match(in)); got != first {
+					verdict = fmt.Sprintf("call %d returned %s, first call %s", rep+1, got, first)
+				}
+			}
+			if verdict == "" {
+				vw.printf("OK 1\n")
+			} else {
+				vw.printf("VIOL - %s: repeated Match on the same classifier and bytes: %s\n", target.name, verdict)
+			}
 		}
 	}
 	// known finding: growing the dictionary (Normalize of other text, or an unrelated document) with the
